@@ -182,6 +182,25 @@ def gen(ctx):
         for R in ["[?@ > `1`]", "[?t]", "[0]", "[-1]", "[1:]", "[*]", "[?@]", "[?u][?t]", "[?t][0]", "[*][0]", "[?t].u"]:
             out.append((form, "(a.*)%s%s" % (proj, R), pd_doc2, ["a.*", R] + ([extra] if extra else [])))
             out.append((form, "(b)%s%s" % (proj, R), pd_doc2, ["b", R] + ([extra] if extra else [])))
+    # the truth table again with one operand written as a LITERAL (a parser that simplifies boolean expressions with constant operands must keep
+    # `x && falsy-literal` = x-or-the-literal exactly as evaluation would: the left operand decides first)
+    lits = ["`false`", "`null`", "''", "`[]`", "`{}`", "`0`", "`true`", "'a'", "`[null]`", "`\"\"`", "`{\"a\": null}`"]
+    for x in tv:
+        d1 = "{ s61 " + x + " }"
+        for lt in lits:
+            out.append(("and", "(a) && (%s)" % lt, d1, ["a", lt]))
+            out.append(("and", "(%s) && (a)" % lt, d1, [lt, "a"]))
+            out.append(("or", "(a) || (%s)" % lt, d1, ["a", lt]))
+            out.append(("or", "(%s) || (a)" % lt, d1, [lt, "a"]))
+            out.append(("and", "a && %s" % lt, d1, ["a", lt]))
+            out.append(("or", "%s || a" % lt, d1, [lt, "a"]))
+        out.append(("not", "!(%s)" % lits[tv.index(x) % len(lits)], d1, [lits[tv.index(x) % len(lits)]]))
+    for lt in lits:
+        for f in ["abs(s)", "nope(@)", "length(`1`)"]:
+            out.append(("and", "(%s) && (%s)" % (f, lt), "{ s73 s78 }", [f, lt]))
+            out.append(("or", "(%s) || (%s)" % (f, lt), "{ s73 s78 }", [f, lt]))
+            out.append(("and", "(%s) && (%s)" % (lt, f), "{ s73 s78 }", [lt, f]))
+            out.append(("or", "(%s) || (%s)" % (lt, f), "{ s73 s78 }", [lt, f]))
     # a parenthesised projection is CLOSED: what follows applies to its result as a whole (composition), not per element
     for _ in range(150 if ctx.tier == "quick" else 5000):
         A = rng.choice(["a[*]", "a[]", "a[?b]", "b.*", "a[1:]", "a[*].a", "a[?@].b", "*", "a[*].a[]"])
